@@ -424,3 +424,63 @@ Theorem plug_sequence_refuted :
 Proof.
   exists [(1%N, [0]); (2%N, [1])], [(2%N, [1]); (1%N, [0])]. split; [apply perm_swap|]. vm_compute. discriminate.
 Qed.
+
+
+(** [resolve_imports] (fix 591363d): the minimum does not depend on the iteration order of the two hash maps. *)
+Lemma fold_min_le_all l x : forall y, In y (x :: l) -> fold_left Nat.min l x <= y.
+Proof.
+  revert x. induction l as [|a l IH]; intros x y Hin; cbn in *.
+  - destruct Hin as [->|[]]. apply Nat.le_refl.
+  - destruct Hin as [->|[->|Hin]].
+    + etransitivity; [apply IH; left; reflexivity | apply Nat.le_min_l].
+    + etransitivity; [apply IH; left; reflexivity | apply Nat.le_min_r].
+    + apply IH. right. exact Hin.
+Qed.
+
+Lemma fold_min_in l x : In (fold_left Nat.min l x) (x :: l).
+Proof.
+  revert x. induction l as [|a l IH]; intros x; cbn.
+  - left; reflexivity.
+  - destruct (IH (Nat.min x a)) as [H|H].
+    + rewrite <- H. destruct (Nat.min_dec x a) as [E|E]; rewrite E; [left|right; left]; reflexivity.
+    + right; right; exact H.
+Qed.
+
+Lemma min_order_indep_list (l1 l2 : list nat) :
+  Permutation l1 l2 ->
+  match l1, l2 with
+  | x :: r, y :: s => fold_left Nat.min r x = fold_left Nat.min s y
+  | [], [] => True
+  | _, _ => False
+  end.
+Proof.
+  intros P. destruct l1 as [|x r], l2 as [|y s]; auto.
+  - apply Permutation_nil in P. discriminate.
+  - apply Permutation_sym, Permutation_nil in P. discriminate.
+  - apply Nat.le_antisymm.
+    + apply fold_min_le_all. eapply Permutation_in; [apply Permutation_sym; exact P|]. apply fold_min_in.
+    + apply fold_min_le_all. eapply Permutation_in; [exact P|]. apply fold_min_in.
+Qed.
+
+Lemma Permutation_filter_compat {A} (f : A -> bool) (l l' : list A) :
+  Permutation l l' -> Permutation (filter f l) (filter f l').
+Proof.
+  induction 1 as [|x l l' P IH|x y l|l l' l'' P1 IH1 P2 IH2]; cbn.
+  - constructor.
+  - destruct (f x); [constructor|]; exact IH.
+  - destruct (f x), (f y); try constructor; try apply Permutation_refl. 
+  - eapply Permutation_trans; eassumption.
+Qed.
+
+Theorem conflict_first_order_indep compat v1 v1' v2 v2' dflt :
+  Permutation v1 v1' -> Permutation v2 v2' ->
+  conflict_first compat v1 v2 dflt = conflict_first compat v1' v2' dflt.
+Proof.
+  intros P1 P2. unfold conflict_first.
+  assert (Permutation (map snd (filter (fun p => compat (fst p)) (v1 ++ v2)))
+                      (map snd (filter (fun p => compat (fst p)) (v1' ++ v2')))) as P.
+  { apply Permutation_map. rewrite !filter_app. apply Permutation_app; apply Permutation_filter_compat; assumption. }
+  pose proof (min_order_indep_list _ _ P) as H.
+  destruct (map snd (filter (fun p => compat (fst p)) (v1 ++ v2))),
+           (map snd (filter (fun p => compat (fst p)) (v1' ++ v2'))); try contradiction; auto.
+Qed.
